@@ -30,7 +30,7 @@ RTOL = 1e-6
 META = dict(
     rule="one case = (model, method, explored path of solve() under an arbitrary solver reply); non-trivial = path ending OPTIMAL with at least one constraint or bound obligation decided",
     bounds={
-        "quick": "26 models (0-3 constraints of each sense and orientation, bounds present/absent, scalar/vector/matrix, LP and NLP) x 8 methods {auto, linprog, highs, highs-ds, highs-ipm, SLSQP, trust-constr, L-BFGS-B}; all data symbolic; path budget 2500 per (model, method)",
+        "quick": "26 models (0-3 constraints of each sense and orientation, bounds present/absent, scalar/vector/matrix, LP and NLP) x 10 methods {auto, linprog, highs, highs-ds, highs-ipm, SLSQP, trust-constr, L-BFGS-B, BFGS, Nelder-Mead}; all data symbolic; path budget 2500 per (model, method)",
         "thorough": "adds n=3 vector and symmetric-matrix models; path budget 20000",
     },
     outside=["whether SciPy honours the stub contract S4/S5", "methods outside the 8 listed (bounds are not passed to them)", "user-supplied tol (default tolerance only)", "rounding (S7)"],
@@ -49,7 +49,7 @@ def items(tier, seed):
     ms = LM.solve_models(tier)
     its = [("twin", 0)]
     for m in ms:
-        for meth in LM.METHODS:
+        for meth in LM.METHODS + LM.EXTRA_METHODS:
             its.append(("mm", (m, meth)))
     its.sort(key=lambda it: -(len(it[1][0]["cons"]) * 10 + (5 if it[1][1] in ("SLSQP", "auto") else 0)) if it[0] == "mm" else -1000)
     return its
